@@ -918,6 +918,11 @@ impl OpSource for RandomOps {
                 "write_all_from", "split_at", "split_at", "commit",
             ])
         };
+        if (op == "async_read_to_at" || op == "async_write_from_at") && rng.chance(1, 2) {
+            // the whole remaining scatter list in one call, through the crate's own async File
+            n = l.avail;
+            c = 0;
+        }
         if c == 1 && n > 64 {
             c = 7;
         }
@@ -1005,6 +1010,15 @@ fn gen_scn(rng: &mut Rng, id: usize) -> Scn {
     if fuse {
         lens.push((pick_len(rng, true), false));
         lens.push((pick_len(rng, true), true));
+    } else if rng.chance(if async_mode() { 1 } else { 0 }, 2) {
+        // scatter lists: 1..12 readable and 1..12 writable segments of unequal, mostly small lengths (the
+        // vectored file transfers work on groups of segments)
+        const SL: [usize; 12] = [1, 3, 5, 8, 9, 13, 16, 24, 100, 4096, 0, 7];
+        for w in [false, true] {
+            for _ in 0..rng.range(1, 12) {
+                lens.push((*rng.pick(&SL), w));
+            }
+        }
     } else {
         let total = rng.range(1, 16) as usize;
         let nr = rng.below(total as u64 + 1) as usize;
